@@ -127,21 +127,34 @@ def workdir() -> str:
 
 def gen_c(t_unit: Any) -> tuple[str, Any]:
     """loopy preprocessing + scheduling + C code generation."""
+    import warnings
+
     import loopy as lp
-    try:
-        t_unit = lp.preprocess_program(t_unit)
-    except Exception as e:  # noqa: BLE001
-        raise CodegenFailure("loopy-preprocess", e, str(e)) from e
-    try:
-        t_unit = lp.linearize(t_unit)
-    except Exception as e:  # noqa: BLE001
-        raise CodegenFailure("loopy-schedule", e, str(e)) from e
-    try:
-        cgr = lp.generate_code_v2(t_unit)
-        code = cgr.device_code()
-    except Exception as e:  # noqa: BLE001
-        raise CodegenFailure("loopy-codegen", e, str(e)) from e
+    # loopy's own diagnostics about the kernel it was handed are observations too: its
+    # (deprecated) single-writer heuristic reports when it had to ADD a dependency the
+    # kernel lacked -- i.e. pytato omitted it
+    with warnings.catch_warnings(record=True) as wlist:
+        warnings.simplefilter("always")
+        try:
+            t_unit = lp.preprocess_program(t_unit)
+        except Exception as e:  # noqa: BLE001
+            raise CodegenFailure("loopy-preprocess", e, str(e)) from e
+        try:
+            t_unit = lp.linearize(t_unit)
+        except Exception as e:  # noqa: BLE001
+            raise CodegenFailure("loopy-schedule", e, str(e)) from e
+        try:
+            cgr = lp.generate_code_v2(t_unit)
+            code = cgr.device_code()
+        except Exception as e:  # noqa: BLE001
+            raise CodegenFailure("loopy-codegen", e, str(e)) from e
+    DEP_REPAIRS[:] = [str(w.message)[:300] for w in wlist
+                      if "single-writer dependency heuristic added dependencies"
+                      in str(w.message)]
     return code, t_unit
+
+
+DEP_REPAIRS: list[str] = []
 
 
 def compile_c(code: str, extra_flags: tuple[str, ...] = ()) -> Any:
@@ -172,9 +185,12 @@ def compile_program(bp: Any) -> Compiled:
     t_unit = bp.program
     fname = t_unit.default_entrypoint.name
     code, t2 = gen_c(t_unit)
+    repairs = list(DEP_REPAIRS)
     lib = compile_c(code)
     params = parse_signature(code, fname)
-    return Compiled(t2, code, lib, fname, params, t2.default_entrypoint)
+    cp = Compiled(t2, code, lib, fname, params, t2.default_entrypoint)
+    cp.dep_repairs = repairs          # type: ignore[attr-defined]
+    return cp
 
 
 def _eval_shape(shape: Any, scalars: dict[str, int]) -> tuple[int, ...]:
